@@ -430,6 +430,65 @@ func freshNonNil(v ssa.Value) bool {
 		if g, ok := x.X.(*ssa.Global); ok && x.Op == token.MUL && sentinels[g] {
 			return true
 		}
+		// an element of the slice returned by a function that fills it with freshly allocated objects only
+		// (out[i] = &T{}; … return out, nil): entries decoded from a store are never nil pointers
+		if ia, ok := x.X.(*ssa.IndexAddr); ok && x.Op == token.MUL {
+			return elementsFresh(ia.X)
+		}
 	}
 	return false
+}
+
+func elementsFresh(s ssa.Value) bool {
+	idx := 0
+	if ex, ok := s.(*ssa.Extract); ok {
+		s, idx = ex.Tuple, ex.Index
+	}
+	cv, ok := s.(*ssa.Call)
+	if !ok {
+		return false
+	}
+	g := cv.Call.StaticCallee()
+	if g == nil || len(g.Blocks) == 0 {
+		return false
+	}
+	var ms *ssa.MakeSlice
+	for _, b := range g.Blocks {
+		r, isRet := b.Instrs[len(b.Instrs)-1].(*ssa.Return)
+		if !isRet || idx >= len(r.Results) {
+			continue
+		}
+		switch rv := r.Results[idx].(type) {
+		case *ssa.Const:
+			if !rv.IsNil() {
+				return false
+			}
+		case *ssa.MakeSlice:
+			if ms != nil && ms != rv {
+				return false
+			}
+			ms = rv
+		default:
+			return false
+		}
+	}
+	if ms == nil {
+		return false
+	}
+	n := 0
+	for _, b := range g.Blocks {
+		for _, in := range b.Instrs {
+			st, isStore := in.(*ssa.Store)
+			if !isStore {
+				continue
+			}
+			if ia, isIA := st.Addr.(*ssa.IndexAddr); isIA && ia.X == ssa.Value(ms) {
+				if _, isAlloc := st.Val.(*ssa.Alloc); !isAlloc {
+					return false
+				}
+				n++
+			}
+		}
+	}
+	return n > 0
 }
